@@ -265,6 +265,7 @@ def evaluate(case, stats=None):
         touches = {}
         nwritten = [0]
         written_by = {}          # id(proxy) -> value written through it as its first touch
+        writers = []
         cross_refs = []          # (owner obj, owner name, feat, index, value, target name)
         # ---- phase 1: follow every reference of the loaded resource, by position
         for oname_, o in lobjs.items():
@@ -290,6 +291,7 @@ def evaluate(case, stats=None):
                                 nwritten[0] += 1
                                 x.val = 5000 + nwritten[0]
                                 written_by[id(x)] = 5000 + nwritten[0]
+                                writers.append(x)
                             elif t == 'eq':
                                 x == o
                             elif t == 'hash':
@@ -340,10 +342,10 @@ def evaluate(case, stats=None):
         if twice:
             fail('reload', 'any', f'more than one resource object for {twice}')
         # ---- phase 2: read-only comparison with direct navigation
-        last_written = {}
-        for o, on, f, i, x, tn in cross_refs:
-            if id(x) in written_by:
-                last_written[tn] = max(last_written.get(tn, 0), written_by[id(x)])
+        last_written = {}        # per target instance: several proxies of one target may have written
+        for x in writers:
+            t = id(x.force_resolve())
+            last_written[t] = max(last_written.get(t, 0), written_by[id(x)])
         for o, on, f, i, x, tn in cross_refs:
             many, opp = REFS[f]
             sh = shape_of(case, expected, on, f)
@@ -351,7 +353,7 @@ def evaluate(case, stats=None):
             if d is None:
                 continue
             try:
-                if id(x) in written_by and d.val != last_written[tn]:
+                if id(x) in written_by and d.val != last_written.get(id(d)):
                     fail('write', sh, f'the value written through {on}.{f}[{i}] as its first use is not on {tn}')
                 if not (x == d and d == x and not (x != d)):
                     fail('eq', sh, f'{on}.{f}[{i}] does not compare equal to {tn} navigated directly')
@@ -418,9 +420,10 @@ def evaluate(case, stats=None):
                     for f2, (m2, _) in REFS.items():
                         if m2:
                             c2 = o2.eGet(f2)
-                            for dd in doomed:
-                                if any(y.force_resolve() is dd for y in c2) and dd not in c2:
-                                    stale.add((on2, f2))
+                            # (the probe is the TARGET of a held proxy: deterministic, unlike the proxy itself)
+                            has_stale = any(isinstance(y, E.EProxy) and y.force_resolve() not in c2 for y in c2)
+                            if has_stale and any(y.force_resolve() is dd for y in c2 for dd in doomed):
+                                stale.add((on2, f2))     # removing from it fails, or corrupts its index
                 how = f'delete() through {on}.{f}[{i}]' if mode == 'through' else f'{tn}.delete() (reached by {on}.{f}[{i}])'
                 try:
                     parent = d.eContainer()
@@ -452,8 +455,8 @@ def evaluate(case, stats=None):
                                 sh = shape_of(case, expected, k[0][0], k[0][1])
                         fail('delete', sh, f'{how}: ' + '; '.join(problems[:3]))
                 except Exception as e:
-                    if stale and isinstance(e, KeyError):
-                        sh = STALE
+                    if stale and isinstance(e, (KeyError, RuntimeError)):
+                        sh = STALE       # OrderedSet.remove/discard on a stale key: KeyError, or the index dict grows
                     fail('delete', sh, f'{how} raises {type(e).__name__}: {e}'[:300])
         if stats is not None:
             stats['refs_followed'] = stats.get('refs_followed', 0) + nfollowed
